@@ -3,6 +3,9 @@
 //!   add <body> <keys>            keys = `0:<a>,1:<w>[,1:<w>]`   (index 0 = B-tree on `a`, 1 = BM25 on `t`)
 //!   update <id> <body> <patch>   patch = `-` | `0=<a>` | `1=<w>/<w>` | `0=<a>,1=<w>`
 //!   remove <id>
+//!   saveext <n>                  `Collection::save_extension` (metadata-only write)
+//!   compact <0|1>                compact the B-tree / BM25 index            (real code + oracle only)
+//!   wantix <0|1>                 later reopens create / remove a B-tree index on `n` in the open callback (real code + oracle only)
 //!   flush <now> | close <now> | reopen <now>      `now`: order-isomorphic stand-in of the wall clock
 //!   arm crash|fail|unknown <n_model> <n_real>     fault on the (n+1)-th coming backend mutation
 //!   disarm
@@ -82,6 +85,11 @@ pub enum Line {
     Add(DocC),
     Update(u64, PatchC),
     Remove(u64),
+    SaveExt(u64),
+    /// compact index 0 (B-tree `a`) / 1 (BM25 `t`) — exercised on the real code only
+    Compact(u64),
+    /// from the next reopen on, the open callback creates (1) / removes (0) a B-tree index on `n` — real code only
+    WantIx(bool),
     Flush(u64),
     Close(u64),
     Reopen(u64),
@@ -95,6 +103,9 @@ impl Line {
             Line::Add(d) => format!("add {} {}", d.body, d.keys()),
             Line::Update(id, p) => format!("update {id} {} {}", p.body, p.show()),
             Line::Remove(id) => format!("remove {id}"),
+            Line::SaveExt(n) => format!("saveext {n}"),
+            Line::Compact(ix) => format!("compact {ix}"),
+            Line::WantIx(b) => format!("wantix {}", *b as u8),
             Line::Flush(n) => format!("flush {n}"),
             Line::Close(n) => format!("close {n}"),
             Line::Reopen(n) => format!("reopen {n}"),
@@ -109,11 +120,18 @@ impl Line {
             other => other.show(),
         }
     }
+    /// the Lean model has no counterpart of this line
+    pub fn unmodelled(&self) -> bool {
+        matches!(self, Line::Compact(_) | Line::WantIx(_))
+    }
     pub fn tag(&self) -> &'static str {
         match self {
             Line::Add(_) => "add",
             Line::Update(..) => "update",
             Line::Remove(_) => "remove",
+            Line::SaveExt(_) => "saveext",
+            Line::Compact(_) => "compact",
+            Line::WantIx(_) => "wantix",
             Line::Flush(_) => "flush",
             Line::Close(_) => "close",
             Line::Reopen(_) => "reopen",
@@ -167,6 +185,9 @@ impl Line {
                 Line::Update(id.parse().ok()?, PatchC { body: b.parse().ok()?, a, ws })
             }
             ["remove", id] => Line::Remove(id.parse().ok()?),
+            ["saveext", n] => Line::SaveExt(n.parse().ok()?),
+            ["compact", ix] => Line::Compact(ix.parse().ok().filter(|x| *x < 2)?),
+            ["wantix", b] => Line::WantIx(*b == "1"),
             ["flush", n] => Line::Flush(n.parse().ok()?),
             ["close", n] => Line::Close(n.parse().ok()?),
             ["reopen", n] => Line::Reopen(n.parse().ok()?),
